@@ -12,6 +12,7 @@ from pyvc.values import Arr, Rec
 from .sptensor import sp_from_aggregator, sym_sptensor, seq_view
 
 M_ = "pyttb.sptenmat.sptenmat."
+I_ = z3.IntSort()
 
 
 def _is_partition(S, rdims, cdims, Nn):
@@ -509,3 +510,83 @@ class tenmat_sub(_TenmatPlusMinus):
     qual = T_ + "__sub__"
     doc = "A - B / A - c: as A + B with entry-wise differences."
     sign = -1
+
+
+# ======================================================================= sptenmat.full (C01: sparse matricization -> dense matricization)
+
+def _abs_tenmat_init(it, pos, kw, self_val):
+    """tenmat(data, rdims, cdims, tshape): the new object holds an entry-wise copy of data, copies of the mode lists and
+    tshape (verified under its own contract); the constructor's acceptance conditions -- the mode lists partition the modes,
+    the entry count is prod(tshape) and is row size times column size -- become obligations at this call site"""
+    names = ["data", "rdims", "cdims", "tshape"]
+    args = dict(zip(names, pos))
+    args.update({k: v for k, v in kw.items() if k in names})
+    data, rd, cd, ts = (args.get(n_) for n_ in names)
+    if not (isinstance(data, Arr) and data.ndim == 2 and isinstance(rd, Arr) and isinstance(cd, Arr) and isinstance(ts, Arr)):
+        raise PathAbort("tenmat() call site: unsupported arguments", it.ctx.cur_line)
+    ctx = it.ctx
+    from pyvc.contract import S as _S
+    S_ = _S(ctx, it, at_call_site=True)
+    ctx.oblige(_is_partition(S_, rd, cd, T.tz(ts.shape[0])), "tenmat():mode-lists-partition-the-modes", kind="requires")
+    rrow = N.spec_row(ctx, rd.shape[0], lambda x: T.tz(ts.fn(rd.fn(x))))
+    crow = N.spec_row(ctx, cd.shape[0], lambda x: T.tz(ts.fn(cd.fn(x))))
+    srow = N.seq_as_row(ctx, ts)
+    ctx.oblige(T.tz(data.shape[0]) * T.tz(data.shape[1]) == N.PRODR(srow), "tenmat():entry-count-is-prod(tshape)", kind="requires")
+    ctx.oblige(N.PRODR(rrow) * N.PRODR(crow) == T.tz(data.shape[0]) * T.tz(data.shape[1]), "tenmat():entry-count-is-row-size-times-column-size", kind="requires")
+    d = N.snap(data)
+    self_val.fields.update(data=Arr(d.shape, d.fn, "real"), rindices=rd, cindices=cd, tshape=ts)
+    return None
+
+
+@register
+class sptenmat_full(Contract):
+    qual = M_ + "full"
+    props = ("C01",)
+    doc = ("M.full() for a well-formed sptenmat with stored entries (both mode lists non-empty): a dense tenmat with the same mode "
+           "lists and tensor shape whose data matrix has prod(tshape[rdims]) x prod(tshape[cdims]) entries, entry (i, j) being "
+           "the value stored for the pair (i, j) and 0 where no pair is stored -- the same matrix, dense.  The dense constructor's "
+           "acceptance conditions are obligations at the call site; 'the two side products multiply to prod(tshape)' is the "
+           "partition-product lemma L11 (assumed).")
+    inline = (M_ + "shape", M_ + "order", T_ + "__setitem__")
+
+    def abstract_calls(self, S, a):
+        return {T_ + "__init__": _abs_tenmat_init}
+
+    def setup(self, S, case):
+        M = sym_sptenmat(S, "M")
+        g = M.ghost
+        # look-up function of the stored pairs (exists because the pairs are pairwise distinct)
+        find = z3.Function(T.fresh_name("M_find"), I_, I_, I_)
+        n, subs = g["n"], M.fields["subs"]
+        k, i, j = z3.Int("mf!k"), z3.Int("mf!i"), z3.Int("mf!j")
+        sr, sc = (lambda k_: T.tz(subs.fn(k_, 0))), (lambda k_: T.tz(subs.fn(k_, 1)))
+        S.ctx.assume(T.ForAll([k], z3.Implies(z3.And(0 <= k, k < n), find(sr(k), sc(k)) == k), [[sr(k), sc(k)]]))
+        S.ctx.assume(T.ForAll([i, j], z3.Or(find(i, j) == -1, z3.And(0 <= find(i, j), find(i, j) < n, sr(find(i, j)) == i, sc(find(i, j)) == j)), [find(i, j)]))
+        # lemma L11 (assumed): for mode lists that partition the modes the two side products multiply to the product of all sizes
+        srow = N.seq_as_row(S.ctx, M.fields["tshape"])
+        S.ctx.assume(N.PRODR(g["rrow"]) * N.PRODR(g["crow"]) == N.PRODR(srow),
+                     trusted="lemma:L11 for mode lists that partition the modes, prod(tshape[rdims]) * prod(tshape[cdims]) = prod(tshape) (re-ordering a finite product; assumed)")
+        g["find"] = find
+        return dict(__self__=M)
+
+    def ensures(self, S, a, ret):
+        M = a["__self__"]
+        g = M.ghost
+        ok = isinstance(ret, Rec) and ret.cls == "tenmat" and isinstance(ret.fields.get("data"), Arr) and ret.fields["data"].ndim == 2
+        yield "returns-a-dense-tenmat", ok
+        if not ok:
+            return
+        D = N.snap(ret.fields["data"])
+        Pr, Pc = N.PRODR(g["rrow"]), N.PRODR(g["crow"])
+        yield "row-size", S.eq(D.shape[0], Pr)
+        yield "column-size", S.eq(D.shape[1], Pc)
+        q, i, j = z3.Int("mf!q"), z3.Int("mf!ei"), z3.Int("mf!ej")
+        rd, cd = M.fields["rdims"], M.fields["cdims"]
+        f = ret.fields
+        yield "rdims-kept", S.And(S.eq(f["rindices"].shape[0], rd.shape[0]), T.ForAll([q], z3.Implies(z3.And(0 <= q, T.tz(q < rd.shape[0])), T.tz(f["rindices"].fn(q)) == T.tz(rd.fn(q)))))
+        yield "cdims-kept", S.And(S.eq(f["cindices"].shape[0], cd.shape[0]), T.ForAll([q], z3.Implies(z3.And(0 <= q, T.tz(q < cd.shape[0])), T.tz(f["cindices"].fn(q)) == T.tz(cd.fn(q)))))
+        yield "tshape-kept", f["tshape"] is M.fields["tshape"]
+        find, vals = g["find"], M.fields["vals"]
+        yield "entries-are-the-stored-values-and-zero-elsewhere", T.ForAll(
+            [i, j], z3.Implies(z3.And(0 <= i, i < Pr, 0 <= j, j < Pc),
+                               T.tz(T.as_real(D.fn(i, j))) == z3.If(find(i, j) >= 0, T.tz(vals.fn(find(i, j), 0)), z3.RealVal(0))), [find(i, j)])
